@@ -35,7 +35,7 @@ from fractions import Fraction as Fr
 from ..common import get_index, nf, check_equal, same_value, purity_obligations
 from ..index import norm_text
 from ..interp import Interp, has_unknown, RangeVal
-from ..plf import Rat, Sym, Fn, PowA, find_atoms, vkey
+from ..plf import Rat, Sym, Fn, PowA, find_atoms, vkey, rpow
 from ..report import AnalysisError
 
 LEVEL = "other"
@@ -89,6 +89,63 @@ def angle(ax, ay):
 def sfi(rad_col, az_row, nr, npp):
     return rebin(np.reshape(rad_col, (nr, 1)), (nr, npp)) * rebin(np.reshape(az_row, (1, npp)), (nr, npp))
 '''
+
+
+def _canon_replication(v):
+    """one normal form for `a column / a row replicated to the (n, m) grid` (rebin itself is decided by A14.rebin):
+         rebin(reshape(x, (n, 1)), (n, m))  and  repeat(reshape(x, (n, 1)), m, axis=1)   ->  bcast(reshape(x, (n, 1)), (n, m))
+         rebin(reshape(x, (1, m)), (n, m))  and  repeat(reshape(x, (1, m)), n, axis=0)   ->  bcast(reshape(x, (1, m)), (n, m))
+       and, in a product, a column (n, 1) times a row (1, m) already has shape (n, m) by broadcasting, replicated or not:
+         bcast(col, (n, m)) * bcast(row, (n, m))  ->  col * row"""
+    if not isinstance(v, Rat):
+        return v
+
+    def col_row(x):
+        a = x.single_atom() if isinstance(x, Rat) else None
+        if isinstance(a, Fn) and a.name == "reshape" and len(a.args) == 2 and isinstance(a.args[1], tuple) and len(a.args[1]) == 2:
+            n_, m_ = a.args[1]
+            if isinstance(m_, Rat) and m_.real_const() == 1 and isinstance(n_, Rat):
+                return "col", n_
+            if isinstance(n_, Rat) and n_.real_const() == 1 and isinstance(m_, Rat):
+                return "row", m_
+        return None, None
+
+    def f(a):
+        if not isinstance(a, Fn):
+            return None
+        if a.name.endswith(":rebin") and a.name.startswith("call:") and len(a.args) == 2 and isinstance(a.args[1], tuple) and len(a.args[1]) == 2:
+            x = a.args[0].subst(f) if isinstance(a.args[0], Rat) else a.args[0]
+            kind, n_ = col_row(x)
+            if kind == "col" and same_value(n_, a.args[1][0]) or kind == "row" and same_value(n_, a.args[1][1]):
+                return Rat.atom(Fn("bcast", (x, tuple(a.args[1]))))
+        if a.name == "repeat" and len(a.args) == 3 and isinstance(a.args[0], Rat) and isinstance(a.args[1], Rat):
+            x = a.args[0].subst(f)
+            kind, n_ = col_row(x)
+            if kind == "col" and a.args[2] in (1, -1):
+                return Rat.atom(Fn("bcast", (x, (n_, a.args[1]))))
+            if kind == "row" and a.args[2] in (0, -2):
+                return Rat.atom(Fn("bcast", (x, (a.args[1], n_))))
+        return None
+    v = v.subst(f)
+    if not v.den_is_one():
+        return v
+    out = Rat({})
+    for mono, coef in v.num.items():
+        kinds = {}
+        for a, e in mono:
+            inner = a.args[0] if isinstance(a, Fn) and a.name == "bcast" else Rat.atom(a)
+            kd, n_ = col_row(inner)
+            if kd:
+                kinds[kd] = n_
+        t = Rat.const(coef)
+        for a, e in mono:
+            if isinstance(a, Fn) and a.name == "bcast" and set(kinds) == {"col", "row"} and \
+                    same_value(tuple(a.args[1]), (kinds["col"], kinds["row"])):
+                t = t * rpow(a.args[0], e)          # the product of a column and a row has the full shape already
+            else:
+                t = t * rpow(Rat.atom(a), e)
+        out = out + t
+    return out
 
 
 def _strict(v):
@@ -179,11 +236,11 @@ def run(rep, tier, root=None):
     check_equal(rep, "A3.index-maps", "cr_of(r2_of(k)) = k", val(O("cr_of"), [val(O("r2_of"), [k, nr, ri]), nr, ri]), k, what="radial inverse")
     check_equal(rep, "A3.index-maps", "cp_of(phi_of(k)) = k", val(O("cp_of"), [val(O("phi_of"), [k, npp]), npp]), k, what="azimuthal inverse")
     Ir = Interp(ix, opaque=opq)
-    check_equal(rep, "A3.index-maps", F("radii").fq + " = sqrt(ri^2 + k (1-ri^2)/nr) replicated", _one(Ir, F("radii"), [nr, npp, ri]),
-                val(O("radii"), [nr, npp, ri]), F("radii").where(), what="radial coordinate of the polar grid")
+    check_equal(rep, "A3.index-maps", F("radii").fq + " = sqrt(ri^2 + k (1-ri^2)/nr) replicated", _canon_replication(_one(Ir, F("radii"), [nr, npp, ri])),
+                _canon_replication(val(O("radii"), [nr, npp, ri])), F("radii").where(), what="radial coordinate of the polar grid")
     r = S("r")
-    check_equal(rep, "A3.index-maps", F("polang").fq + " = 2 pi k / np replicated", _one(Ir, F("polang"), [r]), val(O("polang"), [r]),
-                F("polang").where(), what="azimuthal coordinate of the polar grid")
+    check_equal(rep, "A3.index-maps", F("polang").fq + " = 2 pi k / np replicated", _canon_replication(_one(Ir, F("polang"), [r])),
+                _canon_replication(val(O("polang"), [r])), F("polang").where(), what="azimuthal coordinate of the polar grid")
     if geom is not None:
         # pcgeom builds its polar points from these two functions with its own (nr, npp, ri)
         calls = [e for e in Interp_calls(ix, g, [nr, npp, ncp, ri, ncmar], opq | {MOD + ":setpincs", MOD + ":radii", MOD + ":polang"})]
@@ -220,8 +277,8 @@ def run(rep, tier, root=None):
     col = Rat.atom(Fn("getitem", (kg("rabas"), (("slice", Rat.const(0), None, None), i_))))
     row = Rat.atom(Fn("getitem", (kg("azbas"), (Rat.atom(Fn("getitem", (kg("ord"), i_))), ("slice", Rat.const(0), None, None)))))
     if len(ps) == 1:
-        check_equal(rep, "A6.synthesis", f.fq + " = rabas[:, i] (x) azbas[ord[i], :]", ps[0], val(O("sfi"), [col, row, kg("nr"), kg("np")]),
-                    f.where(), what="polar function")
+        check_equal(rep, "A6.synthesis", f.fq + " = rabas[:, i] (x) azbas[ord[i], :]", _canon_replication(ps[0]),
+                    _canon_replication(val(O("sfi"), [col, row, kg("nr"), kg("np")])), f.where(), what="polar function")
     else:
         rep.unknown("A6.synthesis", f.fq, "expected one returning path", f.where())
 
@@ -619,6 +676,36 @@ def kernel_rule(rep, ix):
                 continue
             seen_idx.add(hit[0])
             got = _fft_canon(s_[3])
+            # A15: the squared chord r_i^2 + r_j^2 - 2 r_i r_j cos(theta) is >= 0 in exact arithmetic but is evaluated as a
+            # difference: for i == j, theta = 0 it is (r^2 + r^2) - 2 r r, which rounding makes -2.2e-16 for some r; its square
+            # root is then nan, the whole kernel row is nan and the eigen-solver fails.  It must be clamped at zero.
+            chord = g(i_) ** 2 + g(j_) ** 2 - 2 * g(i_) * g(j_) * Rat.atom(Fn("cos", (theta,)))
+            guards = {}
+
+            def unguard(a):
+                if isinstance(a, Fn) and a.name in ("maximum", "fmax") and len(a.args) == 2 and all(isinstance(x, Rat) for x in a.args):
+                    for x, y in (a.args, a.args[::-1]):
+                        if y.is_zero() and same_value(x.subst(unguard), chord):
+                            guards[vkey(chord)] = a.name
+                            return x.subst(unguard)
+                if isinstance(a, Fn) and a.name == "clip" and len(a.args) == 3 and isinstance(a.args[0], Rat) and isinstance(a.args[1], Rat) \
+                        and a.args[1].is_zero() and (a.args[2] is None or a.args[2] == "max") and same_value(a.args[0].subst(unguard), chord):
+                    guards[vkey(chord)] = "clip"
+                    return a.args[0].subst(unguard)
+                return None
+            got = got.subst(unguard) if isinstance(got, Rat) else got
+            roots = [a for a in (got.atoms() if isinstance(got, Rat) else []) if isinstance(a, PowA) and same_value(a.base, chord)]
+            if roots:
+                rep.check(bool(guards), "A15.chord-radicand", tag + ": L[%s, :]: the squared chord is clamped at zero before the square root"
+                          % ("i, j" if hit[0] == 0 else "j, i"),
+                          "sqrt(r_i^2 + r_j^2 - 2 r_i r_j cos(theta)) is taken of the bare difference: for i == j and theta = 0 it is "
+                          "(r^2 + r^2) - 2 r r, which is -2.2e-16 for some radii (ri = 0.35, nr = 21: r_9; also (0.2, 31), (0.6, 40), "
+                          "(0, 57), ...); the kernel row is then nan and make_kl fails (LinAlgError) or returns nan modes",
+                          "%s:%d" % (f.module.relpath, s_[4]))
+            else:
+                rep.unknown("A15.chord-radicand", tag + ": L[%s, :]" % ("i, j" if hit[0] == 0 else "j, i"),
+                            "the separation is not written as the square root of r_i^2 + r_j^2 - 2 r_i r_j cos(theta)",
+                            "%s:%d" % (f.module.relpath, s_[4]))
             check_equal(rep, "A13.kernel", tag + ": L[%s, :] = fnorm (2 pi/nth) DFT_theta D(|r_i e^{i theta} - r_j| / 2)" % ("i, j" if hit[0] == 0 else "j, i"),
                         got, _fft_canon(want), "%s:%d" % (f.module.relpath, s_[4]), what="kernel row")
         rep.check(seen_idx == {0, 1}, "A13.kernel", tag + ": both [i, j, :] and [j, i, :] are stored (the kernel is symmetric)",
